@@ -179,7 +179,7 @@ let op_api st a =
   let fv = if has a "fv" then bindings_of (str a "fv" "") else [] in
   let f = expr_of (str a "f" "") in
   let inv = inventory st and g = genv st in
-  let fast = if to_svc then ar_target_services (Some fv) f <> None else ar_target_hosts (Some fv) f <> None in
+  let fast = ar_api_vars_ok fv && (if to_svc then ar_target_services (Some fv) f <> None else ar_target_hosts (Some fv) f <> None) in
   emit (Printf.sprintf "api fast=%d plain=%s wrapped=%s" (if fast then 1 else 0) (keys_str (ar_api_fast g inv to_svc fv f)) (keys_str (ar_api_plain g inv to_svc fv (ar_wrap f))))
 
 (* ---- oracle: re-reads the script, parses the implementation's observation lines ---- *)
@@ -253,7 +253,7 @@ let oracle_c16 script trace =
             ignore pidx;
             let code = int_of_z (ar_oracle g inv st.rules st.wrules plain wrapped) in
             let cls = int_of_z (ar_premise_class g inv st.rules) in
-            let why = match cls with 1 -> " premise=shadowed-target-variable" | 2 -> " premise=for-error-on-unindexed-target" | _ -> "" in
+            let why = match cls with 2 -> " premise=for-error-on-unindexed-target" | _ -> "" in
             match code with
             | 0 -> ()
             | 1 -> fail (Printf.sprintf "step=%d created-set-depends-on-fast-path" li)
@@ -271,7 +271,7 @@ let oracle_c16 script trace =
              let fv = if has a "fv" then bindings_of (str a "fv" "") else [] in
              let f = expr_of (str a "f" "") in
              let code = int_of_z (ar_api_oracle (genv st) (inventory st) to_svc fv f (parse_keys (g "plain")) (parse_keys (g "wrapped"))) in
-             let why = if ar_api_premises (inventory st) fv then "" else " premise=filter-var-named-like-target" in
+             let why = if ar_api_premises (inventory st) then "" else " premise=name-with-bang" in
              (match code with
               | 0 -> ()
               | 1 -> fail (Printf.sprintf "step=%d api-result-depends-on-fast-path" li)
